@@ -50,13 +50,19 @@ def parsePairs (s : String) : Option (List (String × Int)) :=
     | [a, b] => do pure (a, ← b.toInt?)
     | _ => none
 
+def parseSpans (s : String) : Option (List (Int × Int)) :=
+  (splitList s).mapM fun p => match p.splitOn ":" with
+    | [a, b] => do pure (← a.toInt?, ← b.toInt?)
+    | _ => none
+
 def parseExits (s : String) : Option (List (Nat × Int × String)) :=
   (splitList s).mapM fun p => match p.splitOn ":" with
     | [a, b, c] => do pure (← a.toNat?, ← b.toInt?, c)
     | _ => none
 
-def parseObs (kv : List (String × String)) : Option Obs := do
+def parseObs (kv : List (String × String)) (ammo : Nat := 0) : Option Obs := do
   let binds ← (← parsePairs (getS kv "binds")).mapM fun (a, b) => do pure ((← a.toNat?), b)
+  let shots ← (← parsePairs (getS kv "shots")).mapM fun (a, b) => do pure ((← a.toNat?), b.toNat)
   pure { k := ← getN? kv "k", err := getS kv "err", mstart := ← getN? kv "mstart", fails := ← getN? kv "fails",
          total := ← getN? kv "total", started := getN? kv "started", starterr := getS kv "starterr" "?",
          running := (getN? kv "running").getD 0,
@@ -64,7 +70,9 @@ def parseObs (kv : List (String × String)) : Option Obs := do
          ctoks := ← parseInts (getS kv "ctoks"), guns := ← parseInts (getS kv "guns"),
          binds, exits := ← parseExits (getS kv "exits"), cuts := ← parsePairs (getS kv "cuts"),
          jitter := (getI? kv "jitter").getD 0,
-         lastshot := (getI? kv "lastshot").getD (-1), gunctx := (getI? kv "gunctx").getD (-1) }
+         lastshot := (getI? kv "lastshot").getD (-1), gunctx := (getI? kv "gunctx").getD (-1),
+         shots, rpstot := (getI? kv "rpstot").getD (-1), ammo, rpsmin := (getI? kv "rpsmin").getD 0,
+         rpsspans := ← parseSpans (getS kv "rpsspans") }
 
 def reasonOf : String → Option ExitReason
   | "sched" => some .scheduleEnd
@@ -82,10 +90,12 @@ def envEvents (perinst : Bool) (o : Obs) : List Event :=
     | "rps" => if perinst then none else some (t, 0, [.rpsFinished])
     | "cancel" => some (t, 0, [.runCancel])
     | "fail" => some (t, 0, [.runCancel])   -- the failing pool cancels the run (a failed FIRST instance ends the loop itself)
+    -- a gun panicked: the error result of its instance makes the pool fail (below, with the exit)
     | _ => none
   let exits : List (Int × Nat × List Event) := o.exits.map fun (id, t, r) =>
     match reasonOf r with
     | some .ammoEnd => (t, 1, [.instanceExit id .ammoEnd, .outOfAmmoResult])
+    | some .error => (t, 1, [.instanceExit id .error, .runCancel])
     | some rs => (t, 1, [.instanceExit id rs])
     | none => (t, 1, [.instanceExit id .cancelled, .instanceExit id .scheduleEnd, .instanceExit id .ammoEnd, .outOfAmmoResult])
   let all := (causes ++ exits).toArray.qsort (fun a b => a.1 < b.1 || (a.1 == b.1 && a.2.1 < b.2.1))
@@ -173,7 +183,7 @@ def natList (l : List Nat) : String := ",".intercalate (l.map toString)
 
 /-- one pool: (model observation, verdict) -/
 def handlePool (input impl : String) : String × String :=
-  match parseParts (getS (parseKV input) "startup"), parseObs (parseKV impl) with
+  match parseParts (getS (parseKV input) "startup"), parseObs (parseKV impl) ((getN? (parseKV input) "ammo").getD 0) with
   | some parts, some o =>
     let perinst := getS (parseKV input) "perinst" == "1"
     let s := replay perinst o
@@ -181,7 +191,9 @@ def handlePool (input impl : String) : String × String :=
     -- the pool layer must have done to the abstract state what the abstract replay did (refinement), else predict nonsense
     let agree := decide (ps.base.started = s.started) && decide (ps.base.running.length = s.running.length) &&
       ps.base.phase == s.phase
-    let allawaited : Int := if !agree then -2 else if ps.poolCancelled then ps.aw.awaited else -1
+    -- (a pool that never got as far as awaiting the start result — its shared RPS schedule or its warm-up gun could not be
+    -- created — cannot have found everything finished: `poolCancelled` needs `startFinished`)
+    let allawaited : Int := if !agree then -2 else if o.started.isNone then -1 else if ps.poolCancelled then ps.aw.awaited else -1
     -- the model's number of instances: every token released `margin` before the first cause, none released `margin` after it
     let (lo, hi) := kBounds perinst o
     -- (not when the harness itself was being scheduled badly: its heartbeat overslept by more than `jitterMax`)
